@@ -209,9 +209,13 @@ pub fn child_cli(args: &[String]) -> i32 {
 pub struct CliRun { pub status: String, pub stderr: String }
 
 /// Runs `child-cli` in a child process with a working directory and a timeout.
-pub fn run_cli(cwd: &Path, spec: &str, dest: &str, cfg: &Cfg, secs: u64) -> CliRun {
+pub fn run_cli(cwd: &Path, spec: &str, dest: &str, cfg: &Cfg, secs: u64) -> CliRun { run_cli_env(cwd, spec, dest, cfg, secs, &[]) }
+
+/// the same with extra environment variables (the crash hook's plan)
+pub fn run_cli_env(cwd: &Path, spec: &str, dest: &str, cfg: &Cfg, secs: u64, env: &[(&str, String)]) -> CliRun {
     let exe = std::env::current_exe().unwrap();
     let mut cmd = std::process::Command::new(exe);
+    for (k, v) in env { cmd.env(k, v); }
     if cfg.examples {
         // the command line as the `libninja gen` binary receives it (`--examples` is a set-true flag whose default is true)
         cmd.arg("child-cli").arg("--output-dir").arg(dest);
